@@ -6,6 +6,7 @@ import builtins
 import itertools
 import random
 
+import common
 from common import Report, proof_stage, coq_eval_files, parse_nat_list
 from gencalc import Obj, coq_val
 from sched import Sched, Susp, Lock, Cancelled
@@ -335,7 +336,7 @@ def run(tier, seed):
                         tail.append(("run", t))
                     handle(cfg, pre + tail)
     rep.notes["exhaustively_enumerated_schedules"] = nexh
-    nrand = 400 if tier == "quick" else 20000
+    nrand = 400 * common.scale(rep) if tier == "quick" else 20000
     for _ in range(nrand):
         cfg = random_cfg(rng, tier)
         actions = random_schedule(cfg, rng, cancel_prob=0.08)
